@@ -200,7 +200,9 @@ class Ctx:
         w = workers or NCPU
         # every JVM gets an explicit heap bound: the default (25% of RAM each) lets a handful of
         # concurrent TLC runs exhaust the machine
-        argv = ["java", "-XX:+UseParallelGC", "-Xss256m", "-Xmx" + heap] + list(jvm) + [
+        jtmp = os.path.join(d, "jtmp")     # TLC's own temporary files stay inside the run's scratch directory
+        os.makedirs(jtmp, exist_ok=True)
+        argv = ["java", "-XX:+UseParallelGC", "-Xss256m", "-Xmx" + heap, "-Djava.io.tmpdir=" + jtmp] + list(jvm) + [
             "-cp", "/opt/veriftools/tla/tla2tools.jar:/opt/veriftools/tla/CommunityModules-deps.jar",
             "tlc2.TLC", "-workers", str(w), "-metadir", os.path.join(d, "meta"),
             "-config", cfgname, "-noGenerateSpecTE"]
